@@ -244,8 +244,9 @@ func (r *lockRig) candidates(pre *ref.State) []lockCand {
 
 // consumedAsInvalid: the emulator treated the bytes at PC as an encoding it does not support - it read between one and
 // four instruction bytes, advanced PC by as many (and R), and did nothing else. That is what C12 asks of unsupported
-// opcodes; for an *undocumented* encoding of the model it means "this tree does not support it" (no verdict), whether
-// or not the tree says so in its log. log == nil: no access log available (bundled memory types), state only.
+// opcodes; for an *optional* encoding of the model (undocumented, not supported by the pinned tree: the RETN mirrors) it
+// means "this tree does not support it" (no verdict), whether or not the tree says so in its log. For the undocumented
+// encodings the pinned tree does support only the log line counts - an instruction turned into a no-op is a violation. log == nil: no access log available (bundled memory types), state only.
 func consumedAsInvalid(pre, got *ref.State, log []bus.Access, haveLog bool) bool {
 	n := int(got.PC - pre.PC)
 	if n < 1 || n > 4 {
@@ -357,7 +358,7 @@ func (r *lockRig) step() lockStep {
 				o.discs = []eng.Disc{{Kind: eng.KPanic, Msg: fmt.Sprint("Step panicked: ", pan)}}
 				return o
 			}
-			if !o.logged && !in.Documented && !consumed && consumedAsInvalid(&o.pre, &got, r.ib.Log, !r.useDumb) {
+			if !o.logged && in.Optional && !consumed && consumedAsInvalid(&o.pre, &got, r.ib.Log, !r.useDumb) {
 				o.logged = true // unsupported by this tree, silently
 			}
 			if o.logged {
@@ -379,8 +380,8 @@ func (r *lockRig) step() lockStep {
 			r.mb.Rollback()
 			continue
 		}
-		if ci > 0 && c.known != "" && !in.Documented {
-			// the known finding let an *undocumented* encoding run (the overlay switched off at the wrap, the program's
+		if ci > 0 && c.known != "" && in.Optional {
+			// the known finding let an *optional* (undocumented, unsupported here) encoding run (the overlay switched off at the wrap, the program's
 			// own bytes execute): whether this tree supports that encoding cannot be told from a log line on an
 			// acceptance Step, so there is no verdict here
 			if r.resyncNow(&o, pan, dur, fired) {
